@@ -196,6 +196,46 @@ def h_sampled(env, spec, n):
             env.check_true(p > 1e-12, f"sampled key {key} has non-zero exact probability")
 
 
+def h_sampled_chunks(env):
+    """more shots than one sampling chunk (10**7): the number of samples requested from the sampler over all chunks must be
+    n_shots and the frequencies must sum to 1 (the draw is deterministic here: a basis state)"""
+    from tangelo.linq import Circuit, Gate
+    import tangelo.linq.target.backend as bk
+    n_shots = 10 ** 7 + 3
+    requested = []
+
+    class Rep:
+        def __init__(self, v, k):
+            self.v, self.k = v, k
+
+        def __iter__(self):
+            import itertools as it
+            return it.repeat(self.v, self.k)
+
+        def __len__(self):
+            return self.k
+
+    class St:
+        def rv_discrete(self, name=None, values=None, **k):
+            xk, pk = values
+
+            class D:
+                def rvs(self_inner, size=1):
+                    requested.append(int(size))
+                    return Rep(int(xk[0]), int(size))
+            return D()
+    b = make_backend(env, n_shots=n_shots)
+    old = bk.__dict__["stats"]
+    bk.__dict__["stats"] = St()
+    try:
+        freqs, _ = b.simulate(Circuit([Gate("X", 1)], n_qubits=2))
+    finally:
+        bk.__dict__["stats"] = old
+    env.check_same(sum(requested), n_shots, "samples requested over all chunks == n_shots")
+    env.check_same(sorted(freqs), ["01"], "sampled key")
+    env.check_eq(freqs.get("01", 0), 1, "frequencies sum to 1 when n_shots exceeds one chunk")
+
+
 def h_sympy(env, spec, n, init_idx, canary=False):
     """real sympy backend on string parameters; output converted to exact numbers"""
     from tangelo.linq import Circuit, Gate, get_backend
@@ -329,6 +369,11 @@ def shapes(tier, seed):
     for i, spec in enumerate(comps):
         spec = [(g, list(tg), list(ct)) for g, tg, ct in spec]
         out.append(Shape(f"cirq/comp/{i}_" + "-".join(s[0] for s in spec), h_cirq, dict(spec=spec, n=n, init=(i % 2 == 0)), modules=MODS))
+    # gates that need a 4-qubit register even in the quick tier: two targets + two controls, three controls
+    for (g, tg, ct) in [("CSWAP", [1, 3], [0, 2]), ("CSWAP", [0, 1], [2, 3]), ("CRY", [2], [0, 1, 3]), ("CX", [0], [1, 2, 3]), ("CPHASE", [3], [0, 1, 2])]:
+        nm = f"{g}/t{''.join(map(str, tg))}c{''.join(map(str, ct))}"
+        out.append(Shape(f"cirq/single4/{nm}", h_cirq, dict(spec=[(g, tg, ct)], n=4, init=True), modules=MODS))
+    out.append(Shape("cirq/sampled/chunks", h_sampled_chunks, dict(), modules=MODS))
     out.append(Shape("cirq/width>used/H1", h_cirq, dict(spec=[("RY", [1], [])], n=n + 1 if n < 4 else n, init=True), modules=MODS))
     for nn in (1, 2, 3):
         for init in (False, True):
